@@ -96,7 +96,9 @@ def run_e2e(seed, tape, opts):
     done_losses = 0
     for i in range(nloss):
         old = conns()
-        tell = tape.pick((("c", "s"), ("c", "s"), ("c",), ("s",)), "tell")
+        # () = a silent loss: neither end is told, only the Leader's ping
+        # monitor can notice (the dead ends are revealed after convergence)
+        tell = tape.pick((("c", "s"), ("c", "s"), ("c",), ("s",), ()), "tell")
         live = [l for l in sim.net.links if l.mode == "stream" and l.up and
                 all(e.alive and e.made for e in l.ends)]
         for l in live:
@@ -107,11 +109,20 @@ def run_e2e(seed, tape, opts):
             sim.run(tape.choose(40, "gap"), max_time=5)
             for l in live:
                 sim.net.reveal(l)
+        # only the clock can end a silent loss (ping monitor)
+        sim.allow_advance = not tell
         sim.run(12000, until=lambda: conns() is not None and
                 conns()[0] is not old[0] and conns()[1] is not old[1] or
                 bool(a.closed_results or b.closed_results or a.saw_failure or
                      b.saw_failure), max_time=300)
+        sim.allow_advance = False
         c2 = conns()
+        if not tell:
+            for l in live:
+                sim.net.reveal(l)
+            sim.run(200, max_time=1)
+            if c2 is not None and c2[0] is not old[0] and c2[1] is not old[1]:
+                c2 = conns()
         if a.closed_results or b.closed_results or a.saw_failure or \
                 b.saw_failure:
             viol.append({"key": "C11.e2e_wormhole_failed", "clause": "after "
